@@ -100,14 +100,27 @@ func applyJSON(doc document.Document, entry interface{}) (document.Document, err
 
 	// apply one operation at a time so that every operation works on a freshly parsed document:
 	// the library shares nodes between the source and target of copy/move within one Apply call
-	for _, p := range jsonPatches {
-		docBytes, err = jsonpatch.Patch{p}.Apply(docBytes)
+	for i := range jsonPatches {
+		docBytes, err = applyJSONPatchOperation(docBytes, jsonPatches[i:i+1])
 		if err != nil {
 			return nil, err
 		}
 	}
 
 	return document.FromBytes(docBytes)
+}
+
+// applyJSONPatchOperation applies a single operation; a panic inside the patch library
+// (e.g. negative array index, missing value) is answered with an error.
+func applyJSONPatchOperation(docBytes []byte, op jsonpatch.Patch) (result []byte, err error) {
+	defer func() {
+		if r := recover(); r != nil {
+			result = nil
+			err = fmt.Errorf("json patch operation failed: %v", r)
+		}
+	}()
+
+	return op.Apply(docBytes)
 }
 
 func applyRecover(replaceDoc interface{}) (document.Document, error) {
